@@ -75,6 +75,13 @@ class Check(BaseCheck):
             gen.use(case)
             try:
                 vio = self.oracle(case)
+                if vio is not None and vio.clause == "invariance":
+                    # spectra are compared between independent eigs calls, each with its own random ARPACK start vector: a deviation on exactly
+                    # repeated eigenvalues that does not repeat is the external kernel's, not LaPy's (see C03.majority)
+                    again = [self.oracle(case) for _ in range(2)]
+                    if sum(1 for a in again if a is not None and a.clause == "invariance") == 0:
+                        vio = None
+                        stats.monitor("spectrum deviations that did not repeat with other random start vectors")
             except Exception:  # noqa: BLE001
                 vio = None
             stats.monitor("invariance / scaling relations evaluated on the implementation")
